@@ -1,6 +1,7 @@
 import Clover.Generated.Facts
 import Clover.Probe.Linear
 import Clover.Probe.Occ
+import Clover.Probe.WriterLock
 import Clover.Model.DB
 import Clover.Proofs.ScanRun
 import Clover.Props.C04
@@ -66,6 +67,22 @@ theorem badger_validation_alone_admits_write_skew (c a b : Occ.Sys)
     changes what the program does although every key it had read is unchanged -/
 theorem scans_are_not_determined_by_the_keys_read : ¬ Occ.FootprintDetermined (Occ.moveAll 1 3) :=
   Occ.moveAll_not_footprint_determined
+
+/-- **The badger adapter's writer lock is released exactly once** per `Begin(true)`, by whichever of `Commit` /
+    `Rollback` comes first, whatever further calls follow (every public write ends with `Commit` and the deferred
+    `Rollback`, or with `Rollback` alone): never an unlock of an unlocked mutex (a Go panic), never a lock left held
+    (which would wedge every later write) … -/
+theorem writer_lock_released_exactly_once (m m' : WLock.Mu) (tx : WLock.Tx) (h : WLock.beginTx m true = some (m', tx))
+    (e : WLock.End) (es : List WLock.End) :
+    (WLock.endAll m' tx (e :: es)).1.locked = false ∧ (WLock.endAll m' tx (e :: es)).1.unlocks = m.unlocks + 1 ∧
+    (WLock.endAll m' tx (e :: es)).1.fault = m.fault ∧ (WLock.endAll m' tx (e :: es)).2.held = false :=
+  WLock.unlocks_exactly_once m m' tx h e es
+
+/-- … and while it is held no second read-write transaction begins: the single-writer discipline `linearizable`
+    assumes holds for badger as it does for bbolt. -/
+theorem one_writer_at_a_time (m m' : WLock.Mu) (tx : WLock.Tx) (h : WLock.beginTx m true = some (m', tx)) :
+    WLock.beginTx m' true = none :=
+  WLock.begin_blocks_while_held m m' tx h
 
 /-- (facts) the handle holds the store and an atomic flag, nothing else -/
 theorem handle_has_no_shared_mutable_state : dbFields = ["store store.Store", "closed uint32"] := by decide
